@@ -69,3 +69,12 @@ PROPS["C06"] = dict(
     assumptions=["sha256 is a function"],
     bounded=[],
 )
+
+PROPS["C08"] = dict(
+    level="proof",
+    modules=["contracts.c_script_num", "contracts.c_opcodes"],
+    not_decided=["acceptance of whole programs equals Core's (only each rule is decided)",
+                 "_run_ops, witness/taproot spend rules, signature encodings: not under contract yet"],
+    assumptions=["Core's rules as transcribed in spec/core_script.py"],
+    bounded=[],
+)
